@@ -190,6 +190,15 @@ def run(ctx):
         p = os.path.join(gen, 'hgrid%d.c' % k)
         open(p, 'w').write('\n'.join(g.replace('hgNN', 'hg%d' % (k + j)) for j, g in enumerate(grid[k:k + 8])) + '\n' + FP_TRAILER + '\n')
         corpus.append((p, [], 'gen-hostile-const'))
+    # the hand-written idiom corpus (one file per ~20 idioms would hide which one differs: one file each, -S only)
+    idioms = [b.strip('\n') for b in open(os.path.join(core.VERIF, 'rt', 'valid_idioms.txt')).read().split('\n----\n') if b.strip()]
+    step = 1 if ctx.tier == 'thorough' else 3
+    for k in range(ctx.seed % step, len(idioms), step):
+        p = os.path.join(gen, 'idiom%d.c' % k)
+        open(p, 'w').write(idioms[k] + '\n')
+        corpus.append((p, [], 'gen-idiom'))
+    for f in ('idioms_exec.c', 'idioms_exec2.c', 'idioms_exec3.c'):
+        corpus.append((os.path.join(core.VERIF, 'rt', f), [], 'gen-idiom'))
     # two erroneous operands in one constant expression: which diagnostic comes first must not depend on the host compiler's
     # evaluation order (every binary operator x ordered pair of distinct invalid operands x context)
     bad_ops = ['nonconst_a', 'nonconst_b', 'fn()', '1/0', '2%0', '*ptr', '(nonconst_a = 1)', 'nonconst_a++', '1.5', '"s"', '&nonconst_a', '(char)nonconst_b']
@@ -248,7 +257,7 @@ def run(ctx):
             osets = [['-E']]
         elif kind in ('own', 'test'):
             osets = OPTSETS if ctx.tier == 'thorough' else [OPTSETS[0], OPTSETS[2], rng.choice(OPTSETS[1:])]
-        elif kind in ('mutant', 'gen-hostile-const', 'gen-invalid-const', 'gen-type-grid', 'gen-literals'):
+        elif kind in ('mutant', 'gen-hostile-const', 'gen-invalid-const', 'gen-type-grid', 'gen-literals', 'gen-idiom'):
             osets = [['-S']]
         else:
             osets = [['-S'], rng.choice([['-c'], ['-E'], ['-S', '-fPIC']])]
